@@ -92,6 +92,10 @@ EQ_SHAPES_1 = {
     "consts": ("[n0, Color.red, Perm.r | Perm.x, P, None, True, 's', b'b', {2, 1}, frozenset({3}), 1.5, set(), frozenset()]", ["n0"]),
     "hasrepr": ("[n0, Weird(1)]", ["n0"]),
     "hasrepr_top": ("Weird(2)", []),
+    "pydantic": ("Basket(owner=n0, n=n1, items=[n2])", ["n0", "n1", "n2"]),
+    "pydantic_default": ("Basket(owner=n0, n=n1)", ["n0", "n1"]),
+    "pydantic_mutated": ("basket_mut(n0, n1)", ["n0", "n1"]),
+    "pydantic_nested": ("Basket(owner=n0, inner=basket_mut(n1, n2))", ["n0", "n1", "n2"]),
 }
 EQ_SHAPES_2 = {
     "ll": ("[[n0], (n1,)]", ["n0", "n1"]),
@@ -149,7 +153,7 @@ def conditions(tier):
 META = {
     "bounds": {"quick": "24 value shapes up to depth 2 / width 3 (lists, tuples 0/1/2, dicts, dataclass with default and default_factory, attrs, namedtuple, defaultdict, Enum, Flag, class, None, bool, str, bytes, float, set, frozenset, HasRepr) with symbolic int leaves; 5 operations; placements assert / helper argument / module level / loop; <=3 observations",
                "thorough": "all shapes x all placements; <=3 observations everywhere"},
-    "outside": "unbounded size/nesting; str/bytes leaves as symbolic values (C12); pydantic models and externals (C13) - pydantic validates in C code and would realise symbolic ints; layouts other than the templates'",
+    "outside": "unbounded size/nesting; str/bytes leaves as symbolic values (C12); externals (C13); pydantic models only with Any-typed fields (typed fields are validated in C code, which realises symbolic ints); layouts other than the templates'",
     "assumptions": ["stub: repr of a symbolic int leaf is a name token; concrete replays use real repr",
                     "set/frozenset/str/bytes/float/Enum members inside the shapes are concrete constants (hashing a symbolic int realises it)",
                     "pytest's own runner is replaced by direct calls of the real hooks (pytest_configure, snapshot_check fixture generator, pytest_sessionfinish) with stub config/request/session objects"],
